@@ -6,7 +6,8 @@
 //
 // kind: uri uripost raw jsonl jsona scenhttp scengrpc grpcjson decode; <cancel> is "-" or the
 // number of items after which the context is cancelled (always set when limit=passes=0), or "pre": the
-// context is already cancelled when Run is called and the consumers are already waiting in Acquire. <eof>: how
+// context is already cancelled when Run is called and the consumers are already waiting in Acquire; a leading
+// "d" (d3, dpre): the context ends the way a deadline does (Err() = context.DeadlineExceeded). <eof>: how
 // the ammo file ends (a08.EOFLayouts: final newline / none / trailing blanks+CR / blank lines); the
 // entries are the same in every layout, so the model does not look at it.
 // <fs>: the file system the ammo file lives on (a08.FsMem: afero mem files, a08.FsOS: a real file
@@ -38,7 +39,12 @@ func runCell(c string) (out string) {
 	}()
 	f := strings.Split(c, " ")
 	if (len(f) == 7 || len(f) == 8) && f[0] == "engine" {
-		return runEngineCell(f)
+		return runEngineCell(f, -1)
+	}
+	if len(f) == 9 && f[0] == "enginec" {
+		// enginec <kind> <preload> <limit> <passes> <n> <instances> <fs> <cancel at shot k | 0 = before Engine.Run>
+		at, _ := strconv.Atoi(f[8])
+		return runEngineCell(f[:8], at)
 	}
 	sized := len(f) == 13 && f[0] == "sized"
 	if !sized && (len(f) < 8 || len(f) > 10 || f[0] != "cell") {
@@ -57,9 +63,11 @@ func runCell(c string) (out string) {
 	passes, _ := strconv.Atoi(f[4])
 	n, _ := strconv.Atoi(f[5])
 	consumers, _ := strconv.Atoi(f[6])
-	cancel, pre := -1, f[7] == "pre"
-	if f[7] != "-" && !pre {
-		cancel, _ = strconv.Atoi(f[7])
+	deadline := strings.HasPrefix(f[7], "d")
+	cs := strings.TrimPrefix(f[7], "d")
+	cancel, pre := -1, cs == "pre"
+	if cs != "-" && !pre {
+		cancel, _ = strconv.Atoi(cs)
 	}
 	es := a08.DefaultEntries(n)
 	var opts a08.Opts
@@ -85,7 +93,7 @@ func runCell(c string) (out string) {
 		return "0 - closed construct -" // the constructor refused the file: there is no Run and no sink
 	}
 	defer b.Cleanup()
-	o := a08.ObserveMode(b, consumers, cancel, limit+passes*n+1000, pre)
+	o := a08.ObserveOpt(b, consumers, cancel, limit+passes*n+1000, a08.ObsOpts{Pre: pre, Deadline: deadline})
 	h := "-"
 	if o.Run != "hang" && o.Run != "panic" {
 		h = b.Audit.Summary() // Run has returned: its deferred calls are done
@@ -95,7 +103,7 @@ func runCell(c string) (out string) {
 
 // engine <kind> <preload> <limit> <passes> <n> <instances> [<fs>]: the provider under the real engine.
 // Observation: <shots> <sorted seq> <Engine.Run result> <Engine.Wait returned 0|1>
-func runEngineCell(f []string) string {
+func runEngineCell(f []string, cancelAt int) string {
 	kind := f[1]
 	preload := f[2] == "1"
 	limit, _ := strconv.Atoi(f[3])
@@ -111,7 +119,7 @@ func runEngineCell(f []string) string {
 		return "0 - construct:" + strings.ReplaceAll(err.Error(), " ", "_") + " 0"
 	}
 	defer b.Cleanup()
-	shots, res, waited := a08.ObserveEngine(b, inst, limit+passes*n+50)
+	shots, res, waited := a08.ObserveEngineCancel(b, inst, limit+passes*n+50+2*cancelAt, cancelAt)
 	s := "-"
 	if len(shots) > 0 {
 		parts := make([]string, len(shots))
@@ -202,6 +210,11 @@ func gen(r *vh.Rand, tier string) []string {
 			for _, n := range []int{1, 3} {
 				for _, cons := range []int{1, 3} {
 					out = append(out, fmt.Sprintf("cell %s %d %d %d %d %d pre %d %d", pc.kind, pc.preload, lp[0], lp[1], n, cons, len(out)%a08.EOFLayouts, (len(out)/2)%a08.FsKinds))
+					if cons == 1 {
+						// the context ends by a deadline: before Run starts, and after n+1 items were taken
+						out = append(out, fmt.Sprintf("cell %s %d %d %d %d %d dpre %d %d", pc.kind, pc.preload, lp[0], lp[1], n, 1+(n+lp[0])%3, len(out)%a08.EOFLayouts, (len(out)/2)%a08.FsKinds))
+						out = append(out, fmt.Sprintf("cell %s %d %d %d %d %d d%d %d %d", pc.kind, pc.preload, lp[0], lp[1], n, 1+(n+lp[1])%3, n+1, len(out)%a08.EOFLayouts, (len(out)/2)%a08.FsKinds))
+					}
 				}
 			}
 		}
@@ -214,6 +227,15 @@ func gen(r *vh.Rand, tier string) []string {
 				for fs := 0; fs < a08.FsKinds; fs++ {
 					out = append(out, fmt.Sprintf("engine %s %d %d %d %d %d %d", pc.kind, pc.preload, lp[0], lp[1], n, 1+(n+lp[0])%3, fs))
 				}
+			}
+		}
+	}
+	// ... and cancelled: before Engine.Run / from inside the k-th shot, well before any bound:
+	// Engine.Run returns, Engine.Wait returns (no instance stays blocked in Acquire)
+	for i, pc := range provCfgs() {
+		for j, lp := range [][2]int{{0, 0}, {40, 0}, {0, 30}} {
+			for _, at := range []int{0, 1 + (i+j)%4} {
+				out = append(out, fmt.Sprintf("enginec %s %d %d %d %d %d %d %d", pc.kind, pc.preload, lp[0], lp[1], 1+(i+j)%3, 1+(i+2*j)%3, (i+j)%a08.FsKinds, at))
 			}
 		}
 	}
@@ -233,6 +255,9 @@ func gen(r *vh.Rand, tier string) []string {
 			cancel = strconv.Itoa(r.Range(0, 3*n+2))
 			if r.Chance(1, 6) {
 				cancel = "pre"
+			}
+			if r.Chance(1, 4) {
+				cancel = "d" + cancel
 			}
 		}
 		out = append(out, fmt.Sprintf("cell %s %d %d %d %d %d %s %d %d", pc.kind, pc.preload, limit, passes, n, r.Range(1, 4), cancel, r.Intn(a08.EOFLayouts), r.Intn(a08.FsKinds)))
